@@ -114,12 +114,12 @@ fn concretise(c: &Value, rng: &mut Rng, variant: usize) -> Built {
     let hdr_bytes = 12 + 16 + dl + sl + path.len();
     let adv = match hl.as_str() {
         "exact" => hdr_bytes,
-        "less" => hdr_bytes - 4,
+        "less" => (hdr_bytes - 4).min(1020),
         _ => hdr_bytes + 4,
     };
     let payload_len = match variant % 3 {
-        0 => 0usize,
-        1 => 21,
+        0 if cut != "nopayload" => 0usize,
+        0 | 1 => 21,
         _ => 1 + rng.below(1200) as usize,
     };
     let mut b = Vec::with_capacity(hdr_bytes + payload_len);
@@ -145,7 +145,8 @@ fn concretise(c: &Value, rng: &mut Rng, variant: usize) -> Built {
         "full" => b.extend_from_slice(&payload),
         "extra" => {
             b.extend_from_slice(&payload);
-            b.extend(rng.bytes(1 + rng.below(64) as usize));
+            let extra = 1 + rng.below(64) as usize;
+            b.extend(rng.bytes(extra));
         }
         "nopayload" => {
             // header complete, advertised payload missing (at least partly)
@@ -415,7 +416,8 @@ fn record(evp: &str, sump: &str) {
                 if pt > 2 {
                     cc["hl"] = json!("exact");
                 }
-                concretise(&cc, &mut rng, rng.below(3) as usize).bytes
+                let v = rng.below(3) as usize;
+                concretise(&cc, &mut rng, v).bytes
             }
         };
         // pad some to jumbo size
